@@ -82,4 +82,33 @@ example : AuxM.demoNet.Region 1 none AuxM.demoV :=
   ⟨(AuxM.demoNet_feasible _).2 (by simp only [AuxM.demoV]; norm_num),
    by unfold AuxM.Net.threshold; rw [AuxM.demoNet_objVal]; simp [AuxM.demoV, AuxM.demoNet], by simp⟩
 
+/-- **a range without an end has no true extreme**: when the step problem of reaction `r` has an unboundedness certificate (a vector of the
+region and a direction along which the region never ends and the flux of `r` grows), every number is exceeded by the flux of `r` in some
+vector of the region — whatever number FVA reported as the maximum would be false (`harness/c05.py` accepts a refusal to answer and rejects
+a finite number at such an end; the certificate is checked by `LP.checkUnbdd`) -/
+theorem unbounded_end_has_no_maximum (p : LP) (t : Rat) (r : Nat) (x z : List Rat)
+    (h : (p.fvaStep t r true).checkUnbdd x z = true) (M : Rat) :
+    ∃ v, (p.fvaRegion t).feasible v = true ∧ M < v.getD r 0 := by
+  obtain ⟨v, hv, hM⟩ := LP.checkUnbdd_unbounded _ x z h M
+  simp only [LP.fvaStep, if_true] at hv hM
+  have len : v.length = p.n := by
+    simp only [LP.feasible, Bool.and_eq_true, beq_iff_eq] at hv
+    exact hv.1.1
+  simp only [LP.withObj] at hv hM
+  rw [dot_unit _ _ _ len] at hM
+  exact ⟨v, hv, hM⟩
+
+/-- the same at the lower end -/
+theorem unbounded_end_has_no_minimum (p : LP) (t : Rat) (r : Nat) (x z : List Rat)
+    (h : (p.fvaStep t r false).checkUnbdd x z = true) (M : Rat) :
+    ∃ v, (p.fvaRegion t).feasible v = true ∧ v.getD r 0 < M := by
+  obtain ⟨v, hv, hM⟩ := LP.checkUnbdd_unbounded _ x z h (-M)
+  simp only [LP.fvaStep, Bool.false_eq_true, if_false] at hv hM
+  have len : v.length = p.n := by
+    simp only [LP.feasible, Bool.and_eq_true, beq_iff_eq] at hv
+    exact hv.1.1
+  simp only [LP.withObj, dot_negV] at hv hM
+  rw [dot_unit _ _ _ len] at hM
+  exact ⟨v, hv, by linarith⟩
+
 end C05
